@@ -249,11 +249,16 @@ Definition estimate_historic (sizeof : sizefn) (Q : Z) (k : kind) (sz c : Z) : b
    estimate (payload), the allocation, the result check (runner.call) *)
 Inductive mul_out := QuotaArg | QuotaEstimate | QuotaResult (size : Z) | MulOk (size : Z).
 
+(* what `x * c` occupies: an immutable operand times 1 is the operand itself (CPython
+   returns the same object, whose own size sz may exceed the law: cached UTF-8) *)
+Definition product_size (sizeof : sizefn) (k : kind) (n sz c : Z) : Z :=
+  if (c =? 1) && negb (kind_eqb k KList) then sz else true_size sizeof k n c.
+
 Definition mul_eval (est : Z -> kind -> Z -> Z -> bool) (sizeof : sizefn)
            (Q : Z) (k : kind) (n sz c csize : Z) : mul_out :=
   if limit_memory_usage Q [(1, sz)] || limit_memory_usage Q [(1, csize)] then QuotaArg
   else if est Q k sz c then QuotaEstimate
-  else let r := true_size sizeof k n c in
+  else let r := product_size sizeof k n sz c in
        if limit_memory_usage Q [(1, r)] then QuotaResult r else MulOk r.
 
 Definition allocated (m : mul_out) : bool :=
